@@ -185,6 +185,9 @@ def run(ctx):
         tk = side_tokens(c, t["args"][2])
         rep.check(any(x.startswith("u:") and x.endswith("admitted") for x in tk), "C08.R3", "pass:committed-ids-from-admitted", "recorded ids derive from the admitted batch",
                   "recorded ids do not derive from the admitted batch: %s" % sorted(tk), site=c.loc())
+    # the committed-ingress ledger survives a rolled-back pass: the pre-pass checkpoint copies it from the live state
+    from .C09 import checkpoint_copy_rules
+    checkpoint_copy_rules(rep, prog, "C08.R3", only_fields={"committed_ingress"})
     tk_inner = prog.fn(CO + "WorldlineRuntime::ingest_ticketed_invocation_inner")
     st_, detail = find_guard(prog, tk_inner, CO + "RuntimeError", "TicketedIngressSubmissionMismatch", {"f:ingress_id", "c:get"}, {"c:ingress_id", "p:4"})
     rep.check(st_ == "ok", "C08.R3", "ticketed:submission-binding", detail, "%s — %s" % (st_, detail), site=tk_inner.loc())
